@@ -30,6 +30,7 @@ from typing import Any
 VERIF = Path(__file__).resolve().parent.parent
 REPO = Path(os.environ.get("VERIF_REPO", "/repo")).resolve()
 NPROC = int(os.environ.get("VERIF_NPROC", "16"))
+EVID = Path(os.environ.get("VERIF_EVIDENCE_DIR", str(VERIF / "evidence")))
 
 
 # --------------------------------------------------------------------------------------
@@ -163,12 +164,13 @@ def _limit_worker() -> None:
     signal.signal(signal.SIGALRM, _alarm_handler)
 
 
-CASE_WALL_S = 180
+CASE_WALL_S = int(os.environ.get("VERIF_CASE_WALL_S", "120"))
 
 
 def safe_evaluate(mod, case, st: Stats) -> tuple[list[Failure], str | None]:
     """Run mod.evaluate under the wall-clock backstop. Returns (failures, harness_error)."""
-    signal.alarm(CASE_WALL_S)
+    # repeating timer: a single SIGALRM can be swallowed when it fires inside a gc callback / __del__
+    signal.setitimer(signal.ITIMER_REAL, CASE_WALL_S, 2.0)
     try:
         res = mod.evaluate(case, st) or []
         return list(res), None
@@ -181,7 +183,7 @@ def safe_evaluate(mod, case, st: Stats) -> tuple[list[Failure], str | None]:
     except Exception:  # noqa
         return [], traceback.format_exc()
     finally:
-        signal.alarm(0)
+        signal.setitimer(signal.ITIMER_REAL, 0)
 
 
 def default_run_shard(mod, tier: str, seed: int, shard: int, n_cases: int, known_b: set[str]) -> dict:
@@ -293,7 +295,7 @@ def _shrink_entry(args):
 
 def shrink_bucket(mod, tier, seed, entry, bucket, n_cases, budget_s: float) -> tuple[Any, str]:
     """Returns (minimal case, message). Falls back to the recorded example."""
-    scratch = VERIF / "evidence" / "replay"
+    scratch = EVID / "replay"
     scratch.mkdir(parents=True, exist_ok=True)
     outfile = str(scratch / f".shrink-{mod.ID}-{hashlib.sha1(bucket.encode()).hexdigest()[:8]}.json")
     if os.path.exists(outfile):
@@ -360,12 +362,15 @@ class RunCtx:
 
 
 def write_replay(check_id: str, bucket: str, case: Any, message: str) -> str:
-    d = VERIF / "evidence" / "replay"
+    d = EVID / "replay"
     d.mkdir(parents=True, exist_ok=True)
     name = f"{check_id}-{hashlib.sha1(bucket.encode()).hexdigest()[:10]}.json"
     p = d / name
     p.write_text(json.dumps({"property": check_id, "bucket": bucket, "message": message, "case": case}, indent=1, default=str))
-    return str(p.relative_to(VERIF))
+    try:
+        return str(p.relative_to(VERIF))
+    except ValueError:
+        return str(p)
 
 
 def replay_tier(ctx: RunCtx) -> None:
@@ -494,8 +499,8 @@ def write_evidence(ctx: RunCtx, wall: float) -> None:
         "wall_s": round(wall, 2),
         "violations": len(ctx.violations),
     }
-    d = VERIF / "evidence"
-    d.mkdir(exist_ok=True)
+    d = EVID
+    d.mkdir(parents=True, exist_ok=True)
     (d / f"{mod.ID}.json").write_text(json.dumps(ev, indent=1, default=str) + "\n")
 
 
